@@ -36,6 +36,47 @@ def run(ctx):
     locked_flag_of_same_key(ctx, P)
     checksum_helpers(ctx, P)
     mpi_length_not_exact(ctx, P)
+    unlock_failure_in_outer_result(ctx, P)
+
+
+def unlock_failure_in_outer_result(ctx, P):
+    """`DecryptionKey::decrypt` returns `Result<Result<PlainSessionKey>>`: the OUTER error means "this password does not unlock the
+    key" - the ring then tries the next candidate password - the INNER error means "unlocked, but this is not the recipient's key".
+    An implementation that unlocks must hand the result of `unlock` back as its own (outer) result; wrapping a helper's collapsed
+    result into `Ok(..)` moves a wrong-password failure into the inner channel and the ring stops after the first candidate."""
+    n = 0
+    def reaches_unlock(path, depth=0):
+        r = ctx.f.body(path)
+        if r is None or depth > 2:
+            return False
+        bb = ctx.wrap(r)
+        for _, t in bb.calls():
+            fn = t['f'].get('fn', '') or ''
+            if re.search(r'::unlock$', fn):
+                return True
+            if depth < 2 and ctx.f.body(fn) is not None and fn.startswith('packet::key::') and reaches_unlock(fn, depth + 1):
+                return True
+        return False
+    for p, r in sorted(ctx.f.bodies.items()):
+        if not re.search(r' as types::key_traits::DecryptionKey>::decrypt$', p) or '::tests::' in p:
+            continue
+        b = ctx.wrap(r)
+        if not reaches_unlock(p):
+            ctx.functions.discard(p)
+            continue
+        n += 1
+        direct = [i for i, t in b.calls(r'::unlock$') if t['d']['l'] == 0 and not t['d']['pr']]
+        wrapped = []
+        for i, k, st in b.stmts(lambda st: st['d']['l'] == 0 and not st['d']['pr'] and st['r']['k'] == 'agg' and st['r'].get('v') == 'Ok'):
+            og = b.operand_origins(st['r']['o'][0]) if st['r']['o'] else set()
+            for tok in og:
+                if tok.startswith('call:') and reaches_unlock(tok[5:], 1):
+                    wrapped.append(i)
+        ctx.check('%s:ring:unlock-failure-is-outer:%s' % (P, p[1:].split(' as ')[0].split('::')[-1]), 'R-dom',
+                  'DecryptionKey::decrypt of %s returns the result of unlock() as its outer result (a wrong key password is "try the next one", not "invalid")' % p[1:].split(' as ')[0].split('::')[-1],
+                  bool(direct) and not wrapped, function=p, site=site(b, wrapped[0]) if wrapped else None,
+                  missing=None if (direct and not wrapped) else 'the unlock failure is wrapped into Ok(..): TheRing::try_decrypt reads it as Invalid and stops trying the remaining passwords')
+    ctx.floor(P + ':ring:unlock-failure-is-outer:floor', 'DecryptionKey implementations that unlock secret key material', n, 2)
 
 
 def psk_constructs(b):
